@@ -62,30 +62,32 @@ Section Leaf.
      is passed: the caller hands over self._fh), fit the parameters *)
   Definition L_fit_fresh (s : ST) (y : series) (fh : option (list Z)) : ST * bool :=
     (fit_state' l y fh, true).
+  (* ... on a fitted object the optional-horizon mixin insists on a horizon (Model.v: do_refit) *)
   Definition L_fit_again (s : ST) (y : series) (fh : option (list Z)) : ST * bool :=
     let '(s', b) := do_refit' l s y fh in (s', match b with BErr => false | _ => true end).
+  Definition L_fit (fitted : bool) := if fitted then L_fit_again else L_fit_fresh.
   Definition L__predict (s : ST) (h : list Z) : ST * series := (s, forecast' l s h).
 
   (* ---- the regenerated methods at this object ---- *)
-  Definition G_set_cutoff := gen_set_cutoff ST set_cut'.
-  Definition G_set_y_X := gen_set_y_X ST L_set_y set_cut'.
-  Definition G_update_y_X := gen_update_y_X ST (fmem lpar) L_set_y set_cut'.
-  Definition G_set_fh := gen_set_fh ST (ffh lpar) L_set_fh.
-  Definition G_update := gen_update ST (fmem lpar) L_set_y set_cut' (ffh lpar) L_fit_fresh.
-  Definition G_predict := gen_predict ST (ffh lpar) G_set_fh L__predict.
+  Definition G_set_cutoff := gen_set_cutoff ST (fmem lpar) L_set_y (fcut lpar) set_cut' (ffh lpar) L_set_fh L_window_length.
+  Definition G_set_y_X := gen_set_y_X ST (fmem lpar) L_set_y (fcut lpar) set_cut' (ffh lpar) L_set_fh L_window_length.
+  Definition G_update_y_X := gen_update_y_X ST (fmem lpar) L_set_y (fcut lpar) set_cut' (ffh lpar) L_set_fh L_window_length.
+  Definition G_set_fh := gen_set_fh ST (fmem lpar) L_set_y (fcut lpar) set_cut' (ffh lpar) L_set_fh L_window_length.
+  Definition G_update := gen_update ST (fmem lpar) L_set_y (fcut lpar) set_cut' (ffh lpar) L_set_fh L_window_length L_fit.
+  Definition G_predict := gen_predict ST (fmem lpar) L_set_y (fcut lpar) set_cut' (ffh lpar) L_set_fh L_window_length G_set_fh L__predict.
   Definition G__ups_base :=
-    gen__update_predict_single ST (ffh lpar) G_set_fh G_update L__predict.
-  Definition G__ups_window := genw__update_predict_single ST G_update L__predict.
+    gen__update_predict_single ST (fmem lpar) L_set_y (fcut lpar) set_cut' (ffh lpar) L_set_fh L_window_length G_set_fh G_update L__predict.
+  Definition G__ups_window := genw__update_predict_single ST (fmem lpar) L_set_y (fcut lpar) set_cut' (ffh lpar) L_set_fh L_window_length G_update L__predict.
   (* virtual dispatch of self._update_predict_single *)
   Definition G__ups := if lsetsfh l then G__ups_base else G__ups_window.
   Definition G_update_predict_single :=
-    gen_update_predict_single ST (ffh lpar) G_set_fh G__ups.
+    gen_update_predict_single ST (fmem lpar) L_set_y (fcut lpar) set_cut' (ffh lpar) L_set_fh L_window_length G_set_fh G__ups.
   Definition G_predict_moving_cutoff :=
-    gen_predict_moving_cutoff ST (fcut lpar) set_cut' G__ups.
+    gen_predict_moving_cutoff ST (fmem lpar) L_set_y (fcut lpar) set_cut' (ffh lpar) L_set_fh L_window_length G__ups.
   Definition G_update_predict_base :=
-    gen_update_predict ST (fcut lpar) set_cut' (ffh lpar) G__ups.
+    gen_update_predict ST (fmem lpar) L_set_y (fcut lpar) set_cut' (ffh lpar) L_set_fh L_window_length G__ups.
   Definition G_update_predict_window :=
-    genw_update_predict ST (fcut lpar) set_cut' (ffh lpar) L_window_length G__ups.
+    genw_update_predict ST (fmem lpar) L_set_y (fcut lpar) set_cut' (ffh lpar) L_set_fh L_window_length G__ups.
   Definition G_update_predict := if lsetsfh l then G_update_predict_base else G_update_predict_window.
 
   Lemma fstate_eta (s : ST) :
@@ -213,7 +215,7 @@ Section Leaf.
 
   Theorem bridge_mc_body y h up a m w :
     acc_rel a m ->
-    acc_rel (gen_predict_moving_cutoff_loop1 ST (fcut lpar) G__ups y h up a w)
+    acc_rel (gen_predict_moving_cutoff_loop1 ST (fmem lpar) L_set_y (fcut lpar) set_cut' (ffh lpar) L_set_fh L_window_length G__ups y h up a w)
             (mc_step' l h up m (take y w)).
   Proof.
     destruct a as [[[s ps] cs] ok], m as [[s' out] ok']. intros (-> & -> & -> & L).
@@ -231,7 +233,7 @@ Section Leaf.
 
   Lemma bridge_mc_fold y h up : forall ws a m,
     acc_rel a m ->
-    acc_rel (fold_left (gen_predict_moving_cutoff_loop1 ST (fcut lpar) G__ups y h up) ws a)
+    acc_rel (fold_left (gen_predict_moving_cutoff_loop1 ST (fmem lpar) L_set_y (fcut lpar) set_cut' (ffh lpar) L_set_fh L_window_length G__ups y h up) ws a)
             (fold_left (mc_step' l h up) (map (take y) ws) m).
   Proof.
     induction ws as [|w ws IH]; intros a m R; [exact R|].
@@ -258,7 +260,7 @@ Section Leaf.
                     (set_cut' s (zfirst (times y) - 1), [], true)) as R.
       replace (zfirst (times y) + - (1)) with (zfirst (times y) - 1) in * by lia.
       specialize (R (conj eq_refl (conj eq_refl (conj eq_refl eq_refl)))).
-      destruct (fold_left (gen_predict_moving_cutoff_loop1 _ _ _ _ _ _) ws _) as [[[s1 ps] cs] ok].
+      destruct (fold_left (gen_predict_moving_cutoff_loop1 _ _ _ _ _ _ _ _ _ _ _ _) ws _) as [[[s1 ps] cs] ok].
       destruct (fold_left (mc_step' l (cv_fh c) up) _ _) as [[s1' out] ok'].
       destruct R as (-> & -> & -> & _). destruct ok'; reflexivity.
     - unfold set_cut. cbn. rewrite fstate_eta. reflexivity.
@@ -366,6 +368,9 @@ Section Composite.
     (k_update_predict leaf lpar lfit lpred tr tpar tupd tapp tinv tskip thasupd reg rpar rpred).
 
   (* ---- the object ---- *)
+  Definition K_get_y (s : stT) : series := mem (own' s).
+  Definition K_set_y (s : stT) (y : series) : stT := with_own' (b_set_mem y) s.
+  Definition K_window_length (s : stT) : Z := 10.        (* not a window forecaster: never read *)
   Definition K_get_cutoff (s : stT) : Z := cut (own' s).
   Definition K_set_cutoff (s : stT) (c : Z) : stT := with_own' (b_set_cut c) s.
   Definition K_get_fh (s : stT) : option (list Z) := Some (hor (own' s)).
@@ -375,15 +380,15 @@ Section Composite.
   Definition K_set_fh (fitted : bool) (s : stT) (fh : option (list Z)) : stT * bool :=
     match s with
     | SStack _ _ _ _ _ _ _ _ _ _ _ => (s, true)          (* required-horizon mixin, same horizon *)
-    | _ => gen_set_fh stT K_get_fh K_set_fh_field fitted s fh
+    | _ => gen_set_fh stT K_get_y K_set_y K_get_cutoff K_set_cutoff K_get_fh K_set_fh_field K_window_length fitted s fh
     end.
   Definition K_update (s : stT) (y : series) (up : bool) : stT * bool := (k_update' s y up, true).
 
   (* ---- the regenerated inherited methods at this object ---- *)
-  Definition KG_predict := gen_predict stT K_get_fh K_set_fh k__predict'.
-  Definition KG__ups := gen__update_predict_single stT K_get_fh K_set_fh K_update k__predict'.
-  Definition KG_update_predict_single := gen_update_predict_single stT K_get_fh K_set_fh KG__ups.
-  Definition KG_update_predict := gen_update_predict stT K_get_cutoff K_set_cutoff K_get_fh KG__ups.
+  Definition KG_predict := gen_predict stT K_get_y K_set_y K_get_cutoff K_set_cutoff K_get_fh K_set_fh_field K_window_length K_set_fh k__predict'.
+  Definition KG__ups := gen__update_predict_single stT K_get_y K_set_y K_get_cutoff K_set_cutoff K_get_fh K_set_fh_field K_window_length K_set_fh K_update k__predict'.
+  Definition KG_update_predict_single := gen_update_predict_single stT K_get_y K_set_y K_get_cutoff K_set_cutoff K_get_fh K_set_fh_field K_window_length K_set_fh KG__ups.
+  Definition KG_update_predict := gen_update_predict stT K_get_y K_set_y K_get_cutoff K_set_cutoff K_get_fh K_set_fh_field K_window_length KG__ups.
 
   Lemma K_set_fh_is s fh : K_set_fh true s fh = (k_set_fh' s fh, true).
   Proof.
@@ -418,7 +423,7 @@ Section Composite.
 
   Lemma bridge_comp_mc_body y h up a m w :
     kacc_rel a m ->
-    kacc_rel (gen_predict_moving_cutoff_loop1 stT K_get_cutoff KG__ups y h up a w)
+    kacc_rel (gen_predict_moving_cutoff_loop1 stT K_get_y K_set_y K_get_cutoff K_set_cutoff K_get_fh K_set_fh_field K_window_length KG__ups y h up a w)
              (k_mc_step' h up m (take y w)).
   Proof.
     destruct a as [[[s ps] cs] ok], m as [s' out]. intros (-> & -> & -> & L).
@@ -431,7 +436,7 @@ Section Composite.
 
   Lemma bridge_comp_mc_fold y h up : forall ws a m,
     kacc_rel a m ->
-    kacc_rel (fold_left (gen_predict_moving_cutoff_loop1 stT K_get_cutoff KG__ups y h up) ws a)
+    kacc_rel (fold_left (gen_predict_moving_cutoff_loop1 stT K_get_y K_set_y K_get_cutoff K_set_cutoff K_get_fh K_set_fh_field K_window_length KG__ups y h up) ws a)
              (fold_left (k_mc_step' h up) (map (take y) ws) m).
   Proof.
     induction ws as [|w ws IH]; intros a m R; [exact R|].
@@ -467,10 +472,21 @@ Section Composite.
                     (with_own' (b_set_cut (zfirst (times y) - 1)) s, [])) as R.
       replace (zfirst (times y) + - (1)) with (zfirst (times y) - 1) in * by lia.
       specialize (R (conj eq_refl (conj eq_refl (conj eq_refl eq_refl)))).
-      destruct (fold_left (gen_predict_moving_cutoff_loop1 _ _ _ _ _ _) ws _) as [[[s1 ps] cs] ok].
+      destruct (fold_left (gen_predict_moving_cutoff_loop1 _ _ _ _ _ _ _ _ _ _ _ _) ws _) as [[[s1 ps] cs] ok].
       destruct (fold_left (k_mc_step' (cv_fh c) up) _ _) as [s1' out].
       destruct R as (-> & -> & -> & _). reflexivity.
     - rewrite with_own_cut_twice, with_own_cut_id. reflexivity.
+  Qed.
+
+  Theorem site_comp_methods_are_the_model (s : stT) :
+    (forall fh, KG_predict s fh = k_predict' s fh) /\
+    (forall y fh up, KG_update_predict_single s y fh up = k_ups' s y fh up) /\
+    (forall y cv up, KG_update_predict s y cv up = k_update_predict' s y cv up).
+  Proof.
+    split; [|split]; intros.
+    - apply bridge_comp_predict.
+    - apply bridge_comp_update_predict_single.
+    - apply bridge_comp_update_predict.
   Qed.
 
   (* the composite's own cutoff is restored by the regenerated update_predict (a multiplexer whose
